@@ -48,10 +48,11 @@ func init() {
 // ---------------------------------------------------------------------------------------------------
 
 type c10Gen struct {
-	rng   *Rng
-	stats *Stats
-	rel   bool // relationship query (s, r, e) or node query (n)
-	safe  bool // only shapes on which the current emitter round-trips (used around constructs outside the Lean algebra)
+	rng       *Rng
+	stats     *Stats
+	rel       bool // relationship query (s, r, e) or node query (n)
+	safe      bool // only shapes on which the current emitter round-trips (used around constructs outside the Lean algebra)
+	kindHeavy bool // half of the leaves are kind matchers (relationship and node), the rest plain comparisons
 }
 
 func a(s string) *sx     { return sxAtom(s) }
@@ -211,6 +212,19 @@ func (g *c10Gen) kinds(min int) []*sx {
 }
 
 func (g *c10Gen) leaf() *sx {
+	if g.kindHeavy {
+		switch g.rng.Intn(6) {
+		case 0, 1:
+			g.stats.Inc("kind_on_relationship")
+			return call(Pick(g.rng, []string{"Kind", "KindIn"}), append([]*sx{call("Rel")}, g.kinds(1)...)...)
+		case 2:
+			return call(Pick(g.rng, []string{"Kind", "KindIn"}), append([]*sx{call(Pick(g.rng, g.nodeVarRefs()))}, g.kinds(1)...)...)
+		case 3:
+			return call("IsNull", g.propRef())
+		default:
+			return call("Cmp", a("Equals"), g.propRef(), call("i", a(strconv.Itoa(g.rng.Intn(9)))))
+		}
+	}
 	if g.safe {
 		switch g.rng.Intn(5) {
 		case 0:
@@ -283,6 +297,20 @@ func (g *c10Gen) criteria(depth int) *sx {
 		}
 		return out
 	}
+	if g.kindHeavy {
+		switch g.rng.Intn(7) {
+		case 0, 1:
+			return l(append([]*sx{a("And")}, kids()...)...)
+		case 2:
+			return l(append([]*sx{a("Or")}, kids()...)...)
+		case 3:
+			return l(append([]*sx{a("Xor")}, kids()...)...)
+		case 4:
+			return call("RawParen", g.criteria(depth-1))
+		default:
+			return call("Not", g.criteria(depth-1))
+		}
+	}
 	if g.safe {
 		switch g.rng.Intn(3) {
 		case 0:
@@ -337,6 +365,52 @@ func c10Pairs() []*sx {
 				out = append(out, call(o, inner))
 			default:
 				out = append(out, call(o, x, inner), call(o, inner, x), call(o, inner))
+			}
+		}
+	}
+	return out
+}
+
+// c10KindNests: relationship and node kind matchers under nested negations and mixed and/or/xor lists, before and
+// after sibling negations (the positions the neo4j rewriter's "below a negation?" test and hoisting decide on).
+func c10KindNests(full bool) []*sx {
+	x := call("Cmp", a("Equals"), call("RelProp", sxStr("x")), call("i", a("1")))
+	y := call("IsNull", call("StartProp", sxStr("y")))
+	matchers := []*sx{
+		call("KindIn", call("Rel"), sxStr("A"), sxStr("B")),
+		call("Kind", call("Rel"), sxStr("A")),
+		call("Kind", call("Start"), sxStr("A"), sxStr("B")),
+	}
+	siblings := []*sx{x, call("Not", x), call("Not", call("And", call("Not", x), y)), call("Or", call("Not", x), y)}
+	if full {
+		siblings = append(siblings, call("RawNot", x), call("Not", call("Not", x)))
+	}
+	wrappers := []func(*sx) *sx{
+		func(t *sx) *sx { return t },
+		func(t *sx) *sx { return call("Not", t) },
+		func(t *sx) *sx { return call("Not", call("Not", t)) },
+		func(t *sx) *sx { return call("Not", call("And", call("Not", y), t)) },
+		func(t *sx) *sx { return call("And", call("Not", y), t) },
+	}
+	if full {
+		wrappers = append(wrappers,
+			func(t *sx) *sx { return call("Or", y, call("Not", t)) },
+			func(t *sx) *sx { return call("Not", call("Or", call("Not", y), t)) },
+			func(t *sx) *sx { return call("And", t, call("Not", y)) })
+	}
+	var out []*sx
+	for _, m := range matchers {
+		for _, sib := range siblings {
+			for _, op := range []string{"And", "Or", "Xor"} {
+				shapes := []*sx{call(op, m, sib), call(op, sib, m)}
+				if full {
+					shapes = append(shapes, call(op, sib, m, call("Not", y)))
+				}
+				for _, sh := range shapes {
+					for _, w := range wrappers {
+						out = append(out, w(sh))
+					}
+				}
 			}
 		}
 	}
@@ -431,6 +505,15 @@ func mentionsVariable(t *sx) bool {
 	return false
 }
 
+func (g *c10Gen) queryKindHeavy(depth int) *sx {
+	g.rel, g.safe = g.rng.Intn(4) > 0, false
+	crit := g.criteria(depth)
+	if !mentionsVariable(crit) {
+		crit = call("And", call("IsNotNull", g.propRef()), crit)
+	}
+	return l(append([]*sx{a("Q"), call("Where", crit)}, g.returning()...)...)
+}
+
 func (g *c10Gen) query(depth int) *sx {
 	g.rel = g.rng.Intn(3) == 0
 	g.safe = g.rng.Intn(25) == 0 // a slice of cases with a pattern predicate (outside the Lean algebra) in safe surroundings
@@ -467,6 +550,10 @@ func (c10Suite) Gen(rng *Rng, tier string, w *bufio.Writer, stats *Stats) {
 		emit("pair", call("Q", call("Where", c), ret))
 		stats.Inc("pairs")
 	}
+	for _, c := range c10KindNests(tier == "thorough") {
+		emit("kindnest", call("Q", call("Where", c), call("Returning", call("Rel"))))
+		stats.Inc("kind_nests")
+	}
 	// every literal type as a bare comparison operand
 	for _, s := range c10Strings {
 		emit("string", call("Q", call("Where", call("RawCmp", sxStr("="), call("NodeProp", sxStr("x")), call("L", call("s", sxStr(s))))), ret))
@@ -484,12 +571,18 @@ func (c10Suite) Gen(rng *Rng, tier string, w *bufio.Writer, stats *Stats) {
 	stats.Add("create", 2)
 	count := 1500
 	if tier == "thorough" {
-		count = 30000
+		count = 12000
 	}
 	for i := 0; i < count; i++ {
 		depth := 1 + i%5 // small terms first
 		emit(fmt.Sprintf("rnd-d%d", depth), g.query(depth))
 	}
+	g.kindHeavy = true
+	for i := 0; i < count/5; i++ {
+		depth := 2 + i%4
+		emit(fmt.Sprintf("kinds-d%d", depth), g.queryKindHeavy(depth))
+	}
+	g.kindHeavy = false
 }
 
 // ---------------------------------------------------------------------------------------------------
@@ -1024,28 +1117,82 @@ func (r *c10Runner) Step(t []string, raw string) string {
 	if err != nil || term.head() != "Q" {
 		return "bad-op"
 	}
-	// --- path 1: query/neo4j.QueryBuilder (Apply → Prepare → Render)
+	// The criteria VALUE is built once and handed to several builders, as callers do (count-then-fetch): the builders
+	// must leave it alone (input immutability) and give the same text every time (render idempotence).
 	b := &c10Builder{}
-	qb := qn.NewEmptyQueryBuilder()
+	crits := b.top(term)
+	before := ToSexp(crits)
+	applied := "none" // the WHERE criteria as applied, as a term of the Lean algebra (input of the Prepare model)
 	lift := "ok"
-	var applied []string
-	for _, c := range b.top(term) {
-		collectParameters(reflect.ValueOf(c), map[uintptr]bool{}, &applied, 0)
+	var appliedParams []string
+	for _, c := range crits {
+		collectParameters(reflect.ValueOf(c), map[uintptr]bool{}, &appliedParams, 0)
 		if w, ok := c.(*cypher.Where); ok && len(w.Expressions) == 1 {
+			applied = exprTerm(w.Expressions[0]).String()
 			if u := liftedEdgeKind(w.Expressions[0], false, ""); u != "" {
 				lift = u
 			}
 		}
-		qb.Apply(c)
 	}
-	if err := qb.Prepare(); err != nil {
-		r.stats.Inc("prepare_error")
-		return "prepare-error " + oneLine(err.Error())
+	builderText := func() string {
+		qb0 := query.NewBuilder(nil)
+		qb0.Apply(crits...)
+		rq, err := qb0.Build(false)
+		if err != nil {
+			return "build-error " + oneLine(err.Error())
+		}
+		txt, err := format.RegularQuery(rq, false)
+		if err != nil {
+			return "render-error " + oneLine(err.Error())
+		}
+		return txt
 	}
-	text, err := qb.Render()
-	if err != nil {
-		r.stats.Inc("render_error")
-		return "render-error " + oneLine(err.Error())
+	neoText := func() (*qn.QueryBuilder, string, string) {
+		q := qn.NewEmptyQueryBuilder()
+		for _, c := range crits {
+			q.Apply(c)
+		}
+		if err := q.Prepare(); err != nil {
+			return q, "", "prepare-error " + oneLine(err.Error())
+		}
+		txt, err := q.Render()
+		if err != nil {
+			return q, "", "render-error " + oneLine(err.Error())
+		}
+		return q, txt, ""
+	}
+	textB0 := builderText()
+	mutated := "ok"
+	checkMutation := func(stage string) {
+		if mutated == "ok" {
+			if after := ToSexp(crits); after != before {
+				bt, _ := parseSx(before)
+				at, _ := parseSx(after)
+				mutated = stage + " " + oneLine(firstDiff(bt, at, ""))
+			}
+		}
+	}
+	checkMutation("query.Builder")
+	// --- path 1: query/neo4j.QueryBuilder (Apply → Prepare → Render), twice through fresh builders
+	qb, text, fail := neoText()
+	checkMutation("neo4j.QueryBuilder#1")
+	_, text2nd, fail2 := neoText()
+	checkMutation("neo4j.QueryBuilder#2")
+	textB1 := builderText()
+	idem := "ok"
+	switch {
+	case fail != fail2 || text != text2nd:
+		idem = "neo4j second=" + c10Quote(text2nd+fail2)
+	case textB0 != textB1:
+		idem = "query.Builder first=" + c10Quote(textB0) + " second=" + c10Quote(textB1)
+	}
+	if fail != "" {
+		if strings.HasPrefix(fail, "prepare-error") {
+			r.stats.Inc("prepare_error")
+		} else {
+			r.stats.Inc("render_error")
+		}
+		return strings.Join([]string{fail, "A " + applied, "idem " + idem, "mut " + mutated}, "\t")
 	}
 	r.stats.Inc("rendered")
 	pre := unexportedField(qb, "query").(*cypher.RegularQuery)
@@ -1080,9 +1227,9 @@ func (r *c10Runner) Step(t []string, raw string) string {
 			got = append(got, typedValue(qb.Parameters[k]))
 		}
 		sort.Strings(got)
-		sort.Strings(applied)
-		if strings.Join(got, "\x00") != strings.Join(applied, "\x00") {
-			params = fmt.Sprintf("values-differ applied=%d bound=%d", len(applied), len(got))
+		sort.Strings(appliedParams)
+		if strings.Join(got, "\x00") != strings.Join(appliedParams, "\x00") {
+			params = fmt.Sprintf("values-differ applied=%d bound=%d", len(appliedParams), len(got))
 		}
 	}
 	if params == "ok" {
@@ -1107,9 +1254,8 @@ func (r *c10Runner) Step(t []string, raw string) string {
 	// --- path 2: query.Builder.Build + format.RegularQuery (no parameter symbols: only parameter-free terms render)
 	bres := "skip-parameters"
 	if len(qb.Parameters) == 0 {
-		b2 := &c10Builder{}
 		qb2 := query.NewBuilder(nil)
-		qb2.Apply(b2.top(term)...)
+		qb2.Apply(crits...)
 		if rq, err := qb2.Build(false); err != nil {
 			bres = "build-error " + oneLine(err.Error())
 		} else if text2, err := format.RegularQuery(rq, false); err != nil {
@@ -1132,8 +1278,21 @@ func (r *c10Runner) Step(t []string, raw string) string {
 			}
 		}
 	}
+	checkMutation("query.Builder#3")
+	// --- kinds Prepare put on the relationship pattern (part of the meaning of the rendered query)
+	rk := "none"
+	if rc := query.GetFirstReadingClause(pre); rc != nil && rc.Match != nil {
+		if rp := rc.Match.FirstRelationshipPattern(); rp != nil {
+			ks := sxList(sxAtom("ks"))
+			for _, k := range rp.Kinds {
+				ks.list = append(ks.list, sxStr(k.String()))
+			}
+			rk = ks.String()
+		}
+	}
 	return strings.Join([]string{"toks " + cmp.toks, "gm " + cmp.gm, "gr " + cmp.gr, "M " + cmp.m, "R " + cmp.r, "q " + cmp.q,
-		"params " + params, "str " + str, "b " + bres, "reerr " + cmp.reErr, "text " + c10Quote(text), "lift " + lift}, "\t")
+		"params " + params, "str " + str, "b " + bres, "reerr " + cmp.reErr, "text " + c10Quote(text), "lift " + lift,
+		"A " + applied, "RK " + rk, "idem " + idem, "mut " + mutated}, "\t")
 }
 
 // ---------------------------------------------------------------------------------------------------
